@@ -211,7 +211,13 @@ impl Prop for C18 {
             }
         };
         let mut tags = vec![if ic { "ic".to_string() } else { "exact".to_string() }];
-        if na >= 2 && nb >= 2 && nm > 0 && nm < na.max(nb) {
+        // non-trivial: both sides have >= 2 words, some but not all words are matched, and a word
+        // (key) occurs twice on one side, so that several optimal matchings compete
+        let keys = |s: &str| -> Vec<String> {
+            s.split_ascii_whitespace().map(|w| if ic { w.to_lowercase() } else { w.to_string() }).collect()
+        };
+        let dup = |k: &[String]| (0..k.len()).any(|i| k[..i].contains(&k[i]));
+        if na >= 2 && nb >= 2 && nm > 0 && nm < na.max(nb) && (dup(&keys(&a)) || dup(&keys(&b))) {
             tags.push("nt".into());
         }
         if a.chars().any(|c| c.is_whitespace() && !c.is_ascii_whitespace())
